@@ -21,7 +21,7 @@ ASSUMPTIONS = [
     "the clock seen by the profiling code is the scripted utime(); time.time() only gates diagnostic output",
 ]
 MENU = ["ins:sync", "ins:raise", "wrap:try", "item:err", "item:unset", "flush:raise", "wrap:A", "wrap:N", "wrap:S0",
-        "ins:probe", "item:c", "leaf:lzok", "leaf:lzraise", "leaf:sh", "ins:res", "ins:iv"]
+        "ins:probe", "item:c", "leaf:lzok", "leaf:lzraise", "leaf:sh", "ins:res", "ins:iv", "leaf:bt"]
 CATS = ["option-changes-behaviour", "hang", "worker-died"]
 LADDER = {"quick": [(4, 0, ["call"]), (3, 1, ["call"])],
           "thorough": [(5, 0, ["call"], {"pairs": False}), (4, 1, ["call"], {"pairs": False}), (4, 0, ["call"]), (3, 1, ["call"]),
@@ -57,6 +57,8 @@ DENSE = [
     ("P", _t(("try", (_y(_L(IA, _c(_y(IB), _y(("i", "a", "unset"))))),), (("probe",),)), ("iv", "b")), (), (("a", "setraise"),)),
     ("P", _t(("mk", IA), _y(_L(_c(("sync", _t(("sync", _t(_y(IA)), "av"), _y(IB)), "call")), ("re", 0))), _y(("n",))), (), (("b", "new"),)),
     ("P", _t(("with", "P0", (_y(("T", (_c(("with", "S1", (_y(IB), ("probe",)))), _c(_y(IA), ("probe",), _y(IA))))),)), ("probe",)), (), ()),
+    # a task that yields a batch object itself (as a barrier) next to tasks blocked on that batch
+    ("P", _t(_y(_L(_c(_y(IA), _y(IB)), _c(_y(_L(IA, ("bt", "a"))), _y(("bt", "b"))), IB))), (), ()),
 ]
 
 
